@@ -90,7 +90,7 @@ CLAIMS = {
              "outside the program: a loop driven by a stream read must end at the first failed read (end of file or "
              "error), and for the element loop over an argument vector: every step of the argument iterator is proved to move "
              "the cursor forward (word index, then character position; the nested step on a lone '--' by induction). "
-             "Termination of the remaining loops is NOT decided. Downcast provenance: every pointer that a Handler member static_casts to the sub-group argument class comes, on every reaching definition, out of the container that only receives sub-group objects (or is null); container.erase( it) with the iterator of a search only over an edge on which it != end() is known; a noexcept repository function calls (outside try) no repository function from which an exception can escape; smart-pointer members of the argument handling are held by value (shared objects stay alive under their writers).",
+             "Termination of the remaining loops is NOT decided. Downcast provenance: every pointer that a Handler member static_casts to the sub-group argument class comes, on every reaching definition, out of the container that only receives sub-group objects (or is null); container.erase( it) with the iterator of a search only over an edge on which it != end() is known; a noexcept repository function calls (outside try) no repository function from which an exception can escape; smart-pointer members of the argument handling are held by value (shared objects stay alive under their writers); the nesting of argument files is bounded (readArgumentFile() tests a member it updates before it evaluates a line, and throws).",
         note="trusted base: clang front end, extractor, cv/lin.py + cv/bounds.py and its models of "
              "strlen/strcpy/new[]/std::vector/std::string; argc >= 1, argv words are C strings shorter than 2 GiB, "
              "argv[argc] is null",
